@@ -269,16 +269,26 @@ def drain(I, st, it, depth, step, init, limit=64):
 
 
 # ------------------------------------------------------------------ sources
-@imodel(r"^core::iter::traits::collect::IntoIterator::into_iter$|^std::collections::hash::map::HashMap::<K, V, S(, A)?>::(iter|iter_mut|into_iter|drain)$|^core::slice::<impl \[T\]>::iter$|^alloc::vec::Vec::<T, A>::(iter|drain)$|^serde_json::map::Map::<.*>::(iter|into_iter)$")
+@imodel(r"^core::iter::traits::collect::IntoIterator::into_iter$|^core::option::Option::<T>::(iter|iter_mut)$|^std::collections::hash::map::HashMap::<K, V, S(, A)?>::(iter|iter_mut|into_iter|drain)$|^core::slice::<impl \[T\]>::iter$|^alloc::vec::Vec::<T, A>::(iter|drain)$|^serde_json::map::Map::<.*>::(iter|into_iter)$")
 def m_into_iter(I, st, info, args, depth):
     if info["def"] in I.facts.bodies:
         return None
     x = deref(I, st, args[0])
     if is_iter(x):
         return ret(st, x)
+    if "core::option::Option<" in info["name"].split(" as ")[0] or (isinstance(x, Struct) and x.adt == "core::option::Option") or (isinstance(x, Sym) and x.attrs.get("adt") == "core::option::Option"):
+        # an Option as a zero- or one-element sequence
+        byref = isinstance(I.resolve(st, args[0]), Ptr)
+        return [(s2, "return", iterv([v.fields["0"]] if v.variant == "Some" else [], byref=byref)) for s2, v in MD.as_enum(I, st, args[0], "core::option::Option")]
     if is_map(x):
         byref = isinstance(I.resolve(st, args[0]), Ptr) or info["tdef"].endswith("::iter") or info["tdef"].endswith("::iter_mut")
         return ret(st, iterv(_entries(x), byref=False if not byref else True, pairs=True))
+    if isinstance(x, Seq) and x.elems is not None and x.kind in ("vec", "array", "bytes", "slice") and info["tdef"].endswith("IntoIterator::into_iter"):
+        # by value or by reference is a matter of the receiver's type (`[T; N]` / `Vec<T>` yield values, `&[T; N]` / `&Vec<T>` / `&[T]` references)
+        m_ = re.match(r"^<(.*?) as core::iter::traits::collect::IntoIterator>::into_iter$", info["name"])
+        selfty = m_.group(1) if m_ else (info.get("gargs") or [""])[0]
+        if selfty:
+            return ret(st, iterv(x.elems, byref=selfty.startswith("&")))
     return None
 
 
@@ -509,6 +519,34 @@ def m_terminal(I, st, info, args, depth):
     return None
 
 
+@imodel(r"^core::array::from_fn$")
+def m_array_from_fn(I, st, info, args, depth):
+    """std::array::from_fn::<T, N, _>(f) = [f(0), f(1), .., f(N - 1)]"""
+    n = None
+    for g in (info.get("gargs") or []):
+        if re.fullmatch(r"\d+(_usize)?", str(g)):
+            n = int(str(g).split("_")[0])
+    if n is None:
+        m = re.search(r"from_fn::<[^,]+, (\d+),", info["name"])
+        n = int(m.group(1)) if m else None
+    if n is None or n > 64:
+        return None
+    work = [(st, [])]
+    out = []
+    for i in range(n):
+        nxt = []
+        for s, acc in work:
+            for s2, kind, v in I.call_value(s, args[0], [Aff(i, ty="usize")], depth):
+                if kind != "return":
+                    out.append((s2, kind, v))
+                else:
+                    nxt.append((s2, acc + [I.resolve(s2, v)]))
+        work = nxt
+    for s, acc in work:
+        out.append((s, "return", Seq("array@%d" % info["ln"], Aff(n), acc, kind="array")))
+    return out
+
+
 @imodel(r"^alloc::slice::<impl \[T\]>::concat$|^alloc::slice::Concat::concat$")
 def m_concat(I, st, info, args, depth):
     """[a, b, ..].concat(): the pieces one after the other"""
@@ -524,6 +562,8 @@ def m_concat(I, st, info, args, depth):
         if not isinstance(ev, (Seq, StrV)):
             return None
         c, l = MD.seq_chunks(I, st, ev)
+        if isinstance(ev, Seq) and ev.chunks is None and ev.elems is None:
+            c = [("arg", ev)]       # an opaque piece is kept as the value it is (what it was made from stays attached)
         chunks += c
         ln = ln.add(l)
     kind = "str" if all(isinstance(deref(I, st, e), StrV) or getattr(deref(I, st, e), "kind", "") == "str" for e in x.elems) and x.elems else "vec"
